@@ -7,6 +7,7 @@ the expected output; the real binary runs the rendering; CheckLang.tla decides.
 import json
 
 from .. import common as C
+from .. import vmv
 from .. import gen, l1
 
 PID = "C07"
@@ -46,6 +47,11 @@ def run(tier, replay=None):
         c["id"] = hist_id(c["hist"])
     C.log(f"[{PID}] {len(bfs)} exhaustive histories + {len(cases) - len(bfs)} simulated long ones")
     dis, skips, st = l1.run_cases(binary, work, cases)
+    # the compiled code on the value machine MSVMV: per-instruction trace validation of the interpreter and
+    # translation validation of the compiler against MSLang (programs outside the machine's fragment are counted)
+    import random as _random
+    vres = vmv.stage(binary, work / "vmv", cases, 700 if tier == "quick" else 7000, _random.Random(rep.seed))
+    vcov = vmv.report(rep, vres, "closure history")
     byid = {c["id"]: c for c in cases}
     for c in cases:
         if c["rejected"]:
@@ -60,11 +66,11 @@ def run(tier, replay=None):
         rep.violation(f"{d['path']} hist=[{d['id']}]",
                       f"{d['path']}: history [{d['id']}] semantics prescribes {exp} (status {d['exp_status']}); real binary printed {got} exit={d['obs_exit']} {d['obs_fclass']} (first difference at line {k})",
                       dict(case=c["id"], verdict=d, files={"main.ms": c["src"]}, stderr=[o["err"] for o in c["obs"]]))
-    rep.coverage = dict(
+    rep.coverage = dict(**vcov, traces_validated_against_impl=vres["recorded"],
         evaluations=len(cases), distinct_nontrivial=sum(1 for c in cases if any(o["op"] == "call" for o in c["hist"])),
         rule="GenClos.tla: BFS over all operation histories up to MaxLen over 43 operations (4 instances x 3 closure kinds x 3 call routes, owner assignment, is_closure), plus seeded -simulate histories up to length 8 (quick) / 12 (thorough); non-trivial = contains at least one closure call; distinct by history",
         samples=[dict(history=c["id"], observed=c["obs"][0]["out"]) for c in cases[:: max(1, len(cases) // 3)][:3]],
-        states=st["states"] + g.distinct, transitions=st["transitions"] + g.generated, out_of_model=len(skips),
+        states=st["states"] + vres["states"] + g.distinct, transitions=st["transitions"] + vres["transitions"] + g.generated, out_of_model=len(skips),
         rejected_by_compiler=sum(1 for c in cases if c["rejected"]), executions=2 * len(cases), exhaustive_len=2 if tier == "quick" else 3,
     )
     rep.assumptions = ["MSLang.tla closure semantics: lexical scoping, capture of free variables by cell identity, `modify` writes the captured cell, plain assignment declares a local"]
